@@ -69,6 +69,76 @@ pub fn check_one(ctx: &mut Ctx, t: &Tree) {
     ctx.sample(|| format!("{} -> {}", t.show(), hex(&bytes)));
 }
 
+/// values built through the conversion impls (`From` for every primitive width, strings,
+/// vectors, slices, iterators of elements and of pairs, `LazyValue::from`): the bytes are those of
+/// the document the conversions denote
+fn api_built(ctx: &mut Ctx, rng: &mut crate::prng::Rng) {
+    use jsonb::Value;
+    use std::borrow::Cow;
+    let bits = match rng.below(4) {
+        0 => rng.next_u64(),
+        1 => rng.below(300) as u64,
+        2 => (rng.below(300) as u64).wrapping_neg(),
+        _ => 1u64 << rng.below(64),
+    };
+    let fl = f64::from_bits(rng.next_u64());
+    let s = gen::string(rng);
+    let mut cases: Vec<(&'static str, Value<'static>, Tree)> = vec![
+        ("From<i8>", Value::from(bits as i8), Tree::Num(Num::I(bits as i8 as i64))),
+        ("From<i16>", Value::from(bits as i16), Tree::Num(Num::I(bits as i16 as i64))),
+        ("From<i32>", Value::from(bits as i32), Tree::Num(Num::I(bits as i32 as i64))),
+        ("From<i64>", Value::from(bits as i64), Tree::Num(Num::I(bits as i64))),
+        ("From<isize>", Value::from(bits as isize), Tree::Num(Num::I(bits as isize as i64))),
+        ("From<u8>", Value::from(bits as u8), Tree::Num(Num::U(bits as u8 as u64))),
+        ("From<u16>", Value::from(bits as u16), Tree::Num(Num::U(bits as u16 as u64))),
+        ("From<u32>", Value::from(bits as u32), Tree::Num(Num::U(bits as u32 as u64))),
+        ("From<u64>", Value::from(bits), Tree::Num(Num::U(bits))),
+        ("From<usize>", Value::from(bits as usize), Tree::Num(Num::U(bits as usize as u64))),
+        ("From<f32>", Value::from(f32::from_bits(bits as u32)), Tree::Num(Num::f(f32::from_bits(bits as u32) as f64))),
+        ("From<f64>", Value::from(fl), Tree::Num(Num::f(fl))),
+        ("From<bool>", Value::from(bits & 1 == 1), Tree::Bool(bits & 1 == 1)),
+        ("From<()>", Value::from(()), Tree::Null),
+        ("From<String>", Value::from(s.clone()), Tree::Str(s.clone())),
+        ("From<Cow<str>>", Value::from(Cow::Owned::<str>(s.clone())), Tree::Str(s.clone())),
+        ("From<Vec<T>>", Value::from(vec![bits as i16, 0, -1]), Tree::Arr(vec![Tree::Num(Num::I(bits as i16 as i64)), Tree::Num(Num::I(0)), Tree::Num(Num::I(-1))])),
+        ("FromIterator<T>", (0..3u8).map(|k| k as u64 + (bits & 0xff)).collect::<Value>(), Tree::Arr((0..3u64).map(|k| Tree::Num(Num::U(k + (bits & 0xff)))).collect())),
+    ];
+    // pairs in arbitrary order with a repeated key: sorted, the last one wins
+    let keys = [gen::key(rng), gen::key(rng), gen::key(rng)];
+    let pairs: Vec<(String, u32)> = vec![(keys[0].clone(), 1), (keys[1].clone(), bits as u32), (keys[2].clone(), 3), (keys[0].clone(), 4)];
+    cases.push(("FromIterator<(K,V)>", pairs.iter().cloned().collect::<Value>(), Tree::obj_from(pairs.iter().map(|(k, v)| (k.clone(), Tree::Num(Num::U(*v as u64)))).collect())));
+    for (name, v, t) in cases {
+        ctx.count("api_built");
+        let info = || format!("{} expected {}", name, t.show());
+        let expect = refcodec::encode(&t);
+        match guard(|| (v.to_vec(), jsonb::LazyValue::from(v.clone()).to_vec())) {
+            Err(p) => ctx.panic_violation(name, &p, &info),
+            Ok((b, lb)) => {
+                if b != expect {
+                    ctx.violation("to_vec/layout(api-built)", || format!("got={} expected={} ; {}", hex(&b), hex(&expect), info()));
+                }
+                if lb != expect {
+                    ctx.violation("LazyValue::to_vec/layout(api-built)", || format!("got={} expected={} ; {}", hex(&lb), hex(&expect), info()));
+                }
+            }
+        }
+    }
+    // a borrowed slice and a borrowed str
+    let xs = [bits as u32, 7, 0];
+    let sl: &[u32] = &xs;
+    let st: &str = &s;
+    let got = guard(|| (Value::from(sl).to_vec(), Value::from(st).to_vec()));
+    let exp = (refcodec::encode(&Tree::Arr(xs.iter().map(|x| Tree::Num(Num::U(*x as u64))).collect())), refcodec::encode(&Tree::Str(s.clone())));
+    match got {
+        Err(p) => ctx.panic_violation("From<&[T]>/From<&str>", &p, &|| s.clone()),
+        Ok(g) => {
+            if g != exp {
+                ctx.violation("to_vec/layout(api-built)", || format!("From<&[T]> / From<&str>: got={} {} expected={} {}", hex(&g.0), hex(&g.1), hex(&exp.0), hex(&exp.1)));
+            }
+        }
+    }
+}
+
 pub fn run(ctx: &mut Ctx) {
     // 1. small-scope exhaustive enumeration (sharded round-robin)
     let small = gen::enumerate_small(if ctx.miri { 3 } else { 4 });
@@ -153,5 +223,8 @@ pub fn run(ctx: &mut Ctx) {
         };
         ctx.count("random.docs");
         check_one(ctx, &t);
+        if i % 8 == 3 {
+            api_built(ctx, &mut rng);
+        }
     }
 }
